@@ -314,6 +314,20 @@ func c16HandlerHistory(c *Ctx) (evals int64) {
 					Replay: map[string]any{"mods": []string{}, "handler_history": true}})
 			}
 		}
+		// host names that carry a parameter of their own (the tag writes the host name into the URL as it is): the
+		// page's option is the one the proxy computed -- the script is refused or it is the one of that option
+		for _, p := range pages {
+			for _, smuggled := range []string{"&option=7", "&option=3", "&option=5", "&option=6&x=", "&option=7&option=7", "&hostname=other.org", "&ts=1"} {
+				res := build(page{p.host + smuggled, p.opt})
+				evals++
+				if got := read(res); strings.HasPrefix(got, "200 ") && got != alone[p] {
+					c.Run.Violate(ev.Violation{Pred: "content-script-is-the-one-of-its-page", Sig: map[string]any{"host": p.host, "option": p.opt, "compress": compress, "smuggled": smuggled},
+						What: fmt.Sprintf("page host name %q with the option %d the proxy computed (compress=%v): the handler serves a script (%d bytes) that is not the one of %s option=%d (%d bytes; first difference at byte %d)",
+							p.host+smuggled, p.opt, compress, len(got), p.host, p.opt, len(alone[p]), firstDiff(got, alone[p])),
+						Replay: map[string]any{"mods": []string{}, "handler_history": true}})
+				}
+			}
+		}
 		for _, k := range []int{2, 3} {
 			if k == 3 && !c.Thorough() {
 				// quick: triples over a reduced page set
